@@ -24,9 +24,9 @@ func init() {
 				Blocks:   16,
 				Procs:    16,
 				Rule: "case = pair (lhs, rhs) of int sequences. Exhaustive: every pair over alphabet 3 x length <= 7 (10,758,400 pairs), alphabet 2 x length <= 9 (1,046,529 pairs) and alphabet 4 x length <= 5 (1,863,225 pairs) in quick; additionally alphabet 2 x length <= 11, alphabet 3 x length <= 8 (96.8 M pairs) and alphabet 5 x length <= 5 in thorough; every pair of windows (prefix/prefix, window/prefix, suffix/prefix) of one shared backing array of up to 9 binary elements (inputs that alias each other); random pairs of length up to 400 made of long common runs with point mutations, insertions, deletions and block moves over alphabets of 2..50 symbols. " +
-					"Per pair: interpreter (each edit's X and Y are the spans of lhs and rhs at the current offsets, by value and by address; lhs consumed and rhs produced exactly), emitted element count == LCS length from an independent O(mn) table, canonical form (no empty edit, adjacent edits differ in kind, no Drop next to Copy, only the four opcodes, empty iff equal), inputs unmodified; a sample of returned scripts is kept and verified again after later calls; 8 goroutines call EditScript concurrently on unshared inputs (plain and under -race). " +
+					"Per pair: interpreter (each edit's X and Y are the spans of lhs and rhs at the current offsets, by value and by address; lhs consumed and rhs produced exactly), emitted element count == LCS length from an independent O(mn) table, canonical form (no empty edit, adjacent edits differ in kind, no Drop next to Copy, only the four opcodes, empty iff equal), inputs unmodified; a sample of returned scripts is kept and verified again after later calls; 8 goroutines call EditScript concurrently on unshared inputs (plain and under -race); interleaved with all of it, calls that fail half-way and are recovered by the caller (uncomparable interface elements compared with ==, a panicking equality function), so that every verified call also runs right after a failed one. " +
 					"distinct = the pair itself (enumerated without repetition; random pairs by hash); non-trivial = the pair has more than one optimal alignment (counted by a separate DP)",
-				Required:     []string{"pairs", "ambiguous_pairs", "replace_edits", "equal_pairs", "random_pairs", "aliased_pairs", "concurrent_calls", "kept_results_rechecked", "interface_element_cases"},
+				Required:     []string{"pairs", "ambiguous_pairs", "replace_edits", "equal_pairs", "random_pairs", "aliased_pairs", "concurrent_calls", "kept_results_rechecked", "interface_element_cases", "abandoned_calls"},
 				Exhaustive:   true,
 				Assumptions:  []string{"the O(mn) LCS table is the reference for minimality"},
 				CoverPkgs:    []string{"github.com/creachadair/mds/slice"},
@@ -372,6 +372,9 @@ func runC11(c *fw.Ctx) {
 			lhsProto := seqOf(li, sp.a)
 			var amb, pairs, reps, eq int64
 			for ri := 0; ri < n; ri++ {
+				if ri%97 == 0 {
+					c11abandon(c, li+ri/97)
+				}
 				lhs := append(make([]int, 0, len(lhsProto)+2), lhsProto...)
 				rhs := seqOf(ri, sp.a)
 				a, nrep := c11check(c, lhs, rhs)
@@ -437,6 +440,7 @@ func runC11(c *fw.Ctx) {
 		}
 		r := c.Rng()
 		lhs, rhs := c11randomPair(r)
+		c11abandon(c, k+13*c.Block)
 		a, nrep := c11check(c, lhs, rhs)
 		c.Add("pairs", 1)
 		c.Add("random_pairs", 1)
@@ -497,4 +501,42 @@ func c11randomPair(r *rand.Rand) (lhs, rhs []int) {
 		lhs, rhs = rhs, lhs
 	}
 	return lhs, rhs
+}
+
+// c11abandon makes calls that fail half-way and are recovered by the caller:
+// EditScript over interface elements panics when it compares two values of
+// the same uncomparable dynamic type, LCSFunc when its equality callback
+// panics. Nothing is asserted about the abandoned call itself; the verified
+// calls that follow in the same goroutine must not be affected by it.
+func c11abandon(c *fw.Ctx, seed int) {
+	n := 3 + seed%23
+	at := seed % n
+	lhs := make([]any, n)
+	ints := make([]int, n)
+	for i := range lhs {
+		lhs[i] = i % 5
+		ints[i] = i % 5
+	}
+	lhs[at] = []int{4}
+	rhs := append([]any(nil), lhs...)
+	m := 1 + seed%(n*n)
+	cnt := 0
+	calls := []func(){
+		func() { slice.EditScript(lhs, rhs) },
+		func() { slice.LCS(lhs, rhs) },
+		func() {
+			slice.LCSFunc(ints, ints, func(a, b int) bool {
+				if cnt++; cnt > m {
+					panic("abandoned by the equality function")
+				}
+				return a == b
+			})
+		},
+	}
+	for _, f := range calls {
+		cnt = 0
+		if p, _ := fw.Panics(f); p {
+			c.Add("abandoned_calls", 1)
+		}
+	}
 }
